@@ -5,31 +5,40 @@ harness/translate_effects.py abstracts the current <REPO>/bct tree to coq/theori
 (`Example all_safe : prog_safe program = true`), which ./check recompiles together with the
 soundness theorem (Properties/C05.v).  run(ctx) validates the abstraction dynamically on every
 seed-accepting public function and searches for a concrete failing call."""
-import io, contextlib, inspect, random
+import io, sys, os, json, contextlib, inspect, random
 from common import *
 import translate_effects as TE
+import c05_corpus as CORPUS
 
 ID = 'C05'
-COQ_FILES = ['Model/EffectLang.v', 'Proofs/EffectLang.v', 'Gen/Effects.v', 'Properties/C05.v']
-THEOREMS = ['C05_seed_safe_sound', 'C05_bct_all_safe', 'C05_bct_get_rng_is_the_one_modelled', 'C05_bct_no_unmodelled_callables', 'C05_bct',
-            'C05_refines_reference', 'C05_nonvacuous', 'C05_stray_global_draw_refuted', 'C05_reseeding_refuted',
-            'C05_seed_not_forwarded_refuted']
-RULE = ('every public function of bct, bct.nbs, bct.nbs_parallel whose signature has `seed` x small valid inputs (n=6..9, several '
-        'families per function) x seeds {0,7,2**32-1,-1 (ValueError fallback)} x two different prior histories of the global '
-        'generators; non-trivial = the call consumed at least one draw from the recording RandomState; distinct by hash of '
-        '(function, input variant, seed). Static part: all functions reachable from a seed-accepting one are translated and checked in Coq.')
-ASSUMES = ['the translator (harness/translate_effects.py, fail-closed) over-approximates the generator-related effects of each Python function body: validated dynamically, not proved',
-           'control flow and draw arguments are a function of the call arguments and of the draws obtained (oracle `decide`); sources of nondeterminism other than the generators (time, hash order, threads, os.urandom) are not modelled',
-           'a RandomState passed as seed is not numpy\'s global instance itself; the fallback RandomState(random.Random(seed).randint(0,2**32-1)) cannot raise']
-TRUSTED = ['harness/translate_effects.py (Python ast -> EffectLang; unknown constructs touching seed / rng names / np.random / random become DrawNpGlobal/DrawPyGlobal which the checker always rejects)',
+COQ_FILES = ['Model/EffectLang.v', 'Proofs/EffectLang.v', 'Gen/Effects.v', 'Gen/EffectsNeg.v', 'Properties/C05.v']
+THEOREMS = ['C05_seed_safe_sound', 'C05_bct_all_safe', 'C05_bct_get_rng_is_the_one_modelled', 'C05_bct_no_unmodelled_callables',
+            'C05_bct_covers_every_seeded_function', 'C05_bct', 'C05_refines_reference', 'C05_nonvacuous', 'C05_substream_nonvacuous',
+            'C05_stray_global_draw_refuted', 'C05_reseeding_refuted', 'C05_seed_not_forwarded_refuted', 'C05_nondeterminism_refuted',
+            'C05_translator_corpus']
+RULE = ('every public function of bct, bct.nbs, bct.nbs_parallel whose signature has `seed` x every OPTION SET of harness/c05_inputs.py (paired/unpaired/tails of nbs, '
+        'workers 1 and 2, every objective of community_louvain, all 13 generative model types x 2 variants, wei_freq, hierarchy, initial partitions, D given, ...) '
+        'x small valid inputs (n=7..10) x seeds {0,7,2**32-1,-1 (ValueError fallback)} x different prior histories of the global generators; per call: int seed twice, '
+        'RandomState(seed), recording RandomState, unseeded twice; on the first option sets also seeds np.int64 / np.uint32 / tuple / np.random / str / float; a call '
+        'that raises is an outcome like any other (compared, counted, never ends the search); every (function, option set, seed 7) is re-run in two fresh '
+        'interpreters with different PYTHONHASHSEED and must reproduce the parent\'s result; non-trivial = the call consumed at least one draw from the recording '
+        'RandomState; distinct by hash of (function, variant, options, seed). Static part: all functions reachable from a seed-accepting one are translated and '
+        'checked in Coq; the negative corpus harness/c05_corpus.py is re-translated and must be rejected.')
+ASSUMES = ['the translator (harness/translate_effects.py, whitelist-based, fail-closed) over-approximates the generator-related and environment-related effects of each Python function body: pinned by a negative corpus checked in Coq on every run and validated dynamically, not proved',
+           'control flow, draw arguments and THE RESULT are a function of the call arguments and of the draws obtained (oracle `decide`); the syntactic sources of other nondeterminism (time, os, uuid, hash(), id(), np.empty, iteration over a set, rng.seed()) are flagged by the translator as NonDet and rejected; what no syntactic scan sees (C extensions, threads, BLAS reduction order) is covered by the cross-process re-run only',
+           'a RandomState passed as seed is not numpy\'s global instance itself and exists in the heap (o < nxt st); the fallback RandomState(random.Random(seed).randint(0,2**32-1)) cannot raise',
+           'seeds that get_rng cannot turn into a generator (str, float: TypeError) are outside the model (VInt never raises); tested: same exception every time, global generators untouched']
+TRUSTED = ['harness/translate_effects.py (Python ast -> EffectLang; whitelist-based: every name / callee that is not classified — local value, pure builtin, member of a module known to be deterministic, bct function or class, module-level constant — becomes DrawNpGlobal/DrawPyGlobal/NonDet which the checker always rejects; pinned by the negative corpus harness/c05_corpus.py re-translated and re-checked in Coq on every run)',
+           'the whitelist of deterministic modules in harness/translate_effects.py (PURE_MODULES, PURE_MEMBERS, PURE_BUILTINS) and its hand-vouched exceptions: ' + '; '.join('%s — %s' % kv for kv in sorted(TE.TRUSTED_PATHS.items())),
+           'multiprocessing.Pool.map(f, tasks) is modelled as a sequential loop of calls f(task) in input order (order preservation of Pool.map and value-preserving pickling of the task tuples are trusted; validated on every run by workers=1 vs workers=2)',
            'hand-written Gallina model of bct.utils.get_rng (the translator compares a hash of the source with the version modelled and emits get_rng_as_modelled)',
            'ExtrOcamlString (stdlib) for the diagnostic extracted checker ocaml/drv_c05 (not part of the tie)']
 
 
-# Outside the static model whatever the state of the code: the seed travels inside pickled task tuples to worker
-# PROCESSES (multiprocessing.Pool.map); process boundaries and pickling of generator objects are not expressible in
-# EffectLang.  This routine is covered by the dynamic clauses only (and currently violates one: known finding).
-STATIC_OUT_OF_MODEL = {'nbs_parallel.nbs_bct': 'multiprocessing.Pool.map over task tuples carrying the seed (dynamic clauses only)'}
+# Functions declared outside the static model whatever the state of the code: none.  (nbs_parallel.nbs_bct used to be here; its
+# Pool.map over task tuples is now translated: a loop of calls of the task function, each seeded by a number drawn from the rng —
+# sexp EDrawn, sub-stream rule of the checker.)
+STATIC_OUT_OF_MODEL = {}
 
 
 def _exclusions():
@@ -47,7 +56,7 @@ FALLBACK_FNS = ('get_rng', 'randmio_und', 'makerandCIJ_und', 'modularity_louvain
 def pregen():
     """regenerate coq/theories/Gen/Effects.v from the CURRENT source tree (called by ./check setup and at import)"""
     global _RES
-    _RES = TE.generate(REPO, VERIF, _exclusions())
+    _RES = TE.generate(REPO, VERIF, _exclusions(), CORPUS)
     return _RES
 
 
@@ -55,22 +64,7 @@ pregen()      # ./check imports this module before it builds the Coq files
 
 
 # ---------------------------------------------------------------------------------------------- dynamic part
-def canon(x):
-    if isinstance(x, (tuple, list)):
-        return tuple(canon(y) for y in x)
-    if isinstance(x, np.ndarray):
-        y = x
-        if y.dtype.kind in 'fc':
-            y = y.copy()
-            y[np.isnan(y)] = np.nan
-        return ('arr', y.shape, str(y.dtype), y.tobytes())
-    if isinstance(x, dict):
-        return tuple(sorted((str(k), canon(v)) for k, v in x.items()))
-    if isinstance(x, float) and x != x:
-        return 'nan'
-    if isinstance(x, (np.floating, np.integer)):
-        return canon(x.item())
-    return x
+from c05_inputs import canon, digest, outcome, mats, builders, public_seeded, seed_of      # noqa: E402
 
 
 def world():
@@ -86,135 +80,131 @@ def set_world(h):
         random.random()
 
 
-def mats(v):
-    r = np.random.RandomState(500 + v)
-    n = 7 + v % 3
-    Wd = r.randint(1, 5, size=(n, n)).astype(float) * (r.rand(n, n) < 0.55)
-    np.fill_diagonal(Wd, 0)
-    Wu = np.triu(Wd, 1); Wu = Wu + Wu.T
-    Ws = np.triu(Wu * np.where(r.rand(n, n) < 0.3, -1, 1), 1); Ws = Ws + Ws.T
-    D8 = r.rand(8, 8) + 1; D8 = (D8 + D8.T) / 2
-    A8 = np.triu((r.rand(8, 8) < 0.4).astype(float), 1); A8 = A8 + A8.T
-    return dict(n=n, Wd=Wd, Wu=Wu, Ws=Ws, Ab=(Wu != 0).astype(float), Abd=(Wd != 0).astype(float), xyz=r.rand(n, 3),
-                D8=D8, A8=A8, x=r.rand(5, 5, 6), y=r.rand(5, 5, 7) + 0.3, P=(lambda a: (a + a.T) / 2)(r.rand(n, n)))
-
-
-def builders(bct, P):
-    """name -> function(variant) -> (callable taking seed kw only)"""
-    def mk(f, fa):
-        def at(v):
-            m = mats(v)
-            g = lambda **kw: f(*fa(m, v)[0], **dict(fa(m, v)[1], **kw))     # fresh copies of the arguments on every call
-            g.args = tolist(fa(m, v))
-            return g
-        return at
-    A = lambda *a, **k: (a, k)
-    gm = ['matching', 'neighbors', 'euclidean', 'clu-avg', 'deg-avg', 'clu-prod']
-    T = {
-        'randmio_und': lambda m, v: A(m['Wu'].copy(), 2), 'randmio_dir': lambda m, v: A(m['Wd'].copy(), 2),
-        'randmio_und_connected': lambda m, v: A(m['Wu'].copy(), 2), 'randmio_dir_connected': lambda m, v: A(m['Wd'].copy(), 2),
-        'randmio_und_signed': lambda m, v: A(m['Ws'].copy(), 2), 'randmio_dir_signed': lambda m, v: A(m['Wd'].copy(), 2),
-        'latmio_und': lambda m, v: A(m['Wu'].copy(), 2), 'latmio_dir': lambda m, v: A(m['Wd'].copy(), 2),
-        'latmio_und_connected': lambda m, v: A(m['Wu'].copy(), 2), 'latmio_dir_connected': lambda m, v: A(m['Wd'].copy(), 2),
-        'randomize_graph_partial_und': lambda m, v: A(m['Wu'].copy(), np.zeros((m['n'], m['n'])), 3),
-        'randomizer_bin_und': lambda m, v: A(m['Ab'].copy(), 0.5),
-        'null_model_und_sign': lambda m, v: A(m['Ws'].copy(), 2, 0.5), 'null_model_dir_sign': lambda m, v: A(m['Wd'].copy(), 2, 0.5),
-        'makerandCIJ_und': lambda m, v: A(8, 10 + v), 'makerandCIJ_dir': lambda m, v: A(8, 10 + v),
-        'makeringlatticeCIJ': lambda m, v: A(8, 20 + v), 'maketoeplitzCIJ': lambda m, v: A(8, 10 + v, 2.0),
-        'makeevenCIJ': lambda m, v: A(8, 30 + v, 2), 'makefractalCIJ': lambda m, v: A(3, 2, 2),
-        'makerandCIJdegreesfixed': lambda m, v: A(m['Abd'].sum(0).astype(int), m['Abd'].sum(1).astype(int)),
-        'community_louvain': lambda m, v: A(m['Wu'].copy()), 'modularity_louvain_und': lambda m, v: A(m['Wu'].copy()),
-        'modularity_louvain_dir': lambda m, v: A(m['Wd'].copy()), 'modularity_louvain_und_sign': lambda m, v: A(m['Ws'].copy()),
-        'modularity_finetune_und': lambda m, v: A(m['Wu'].copy()), 'modularity_finetune_dir': lambda m, v: A(m['Wd'].copy()),
-        'modularity_finetune_und_sign': lambda m, v: A(m['Ws'].copy()), 'modularity_probtune_und_sign': lambda m, v: A(m['Ws'].copy()),
-        'core_periphery_dir': lambda m, v: A(m['Wd'].copy()), 'consensus_und': lambda m, v: A(m['P'].copy(), 0.3, reps=4),
-        'rentian_scaling': lambda m, v: A(m['Ab'].copy(), m['xyz'].copy(), 5),
-        'pick_four_unique_nodes_quickly': lambda m, v: A(5 + v),
-        'nbs_bct': lambda m, v: A(m['x'].copy(), m['y'].copy(), 1.0, k=5),
-        'nbs_parallel.nbs_bct': lambda m, v: A((m['x'] + m['x'].transpose(1, 0, 2)).copy(), (m['y'] + m['y'].transpose(1, 0, 2)).copy(), 1.0, k=6, workers=1),
-        'generative_model': lambda m, v: A(np.zeros((8, 8)), m['D8'].copy(), 6, np.array([-1.0]), np.array([0.3]), model_type=gm[v % len(gm)]),
-        'evaluate_generative_model': lambda m, v: A(np.zeros((8, 8)), m['A8'].copy(), m['D8'].copy(), np.array([-1.0]), np.array([0.3]), model_type=gm[v % 3]),
-        'get_rng': None,
-        'generate_fc': lambda m, v: A(m['Wu'].copy(), np.array([0.1] * 5)),
-        'mleme_constraint_model': lambda m, v: A(2, m['Wd'].copy()),
-    }
-    out = {k: mk(P[k], fa) for k, fa in T.items() if k in P and fa is not None}
-    if 'get_rng' in P:      # the hand-modelled function itself: observe the stream it hands out
-        out['get_rng'] = lambda v: (lambda seed=None: P['get_rng'](seed).random_sample(3 + v))
-    return out
-
-
-def public_seeded():
-    import bct, bct.nbs
-    out = {}
-    for ns, pre in ((bct, ''), (bct.nbs, '')):
-        for nm in sorted(dir(ns)):
-            f = getattr(ns, nm)
-            if inspect.isfunction(f) and (f.__module__ or '').startswith('bct') and not nm.startswith('_'):
-                try:
-                    if 'seed' in inspect.signature(f).parameters:
-                        out.setdefault(pre + nm, f)
-                except (TypeError, ValueError):
-                    pass
-    try:
-        import bct.nbs_parallel as npar
-        if 'seed' in inspect.signature(npar.nbs_bct).parameters:
-            out['nbs_parallel.nbs_bct'] = npar.nbs_bct
-    except Exception:
-        pass
-    return out
-
-
 def qname(f):
     return (f.__module__ or '')[4:] + '.' + f.__name__
 
 
-def quiet(g, t, **kw):
-    with contextlib.redirect_stdout(io.StringIO()):
-        return canon(call(g, _t=t, **kw))
+def raised(r):
+    return isinstance(r, tuple) and len(r) == 2 and r[0] == 'raised'
 
 
-def exercise(ctx, name, f, g, v, s, static_ok, may_draw, t=8.0):
-    """one (function, input variant, seed): clauses (a)-(e); returns 'ok' / reason not exercised"""
-    case = {'function': name, 'variant': v, 'seed': s, 'args_kwargs': getattr(g, 'args', None)}
+def exercise(ctx, name, g, v, s, static_ok, may_draw, t=8.0):
+    """one (function, input variant + option set, seed): clauses (a)-(e).  An exception is an outcome like any other: it must be the
+    same outcome in every run that the property says is equal, and the global generators must be left alone by it.
+    -> (status, canonical result of the int-seeded call)"""
+    case = {'function': name, 'variant': v, 'options': g.label, 'seed': s, 'args_kwargs': getattr(g, 'args', None)}
     try:
         set_world(1)
         rec = Rec(s if 0 <= s < 2 ** 32 else 0)
         st0 = rec.get_state()[1].tobytes(), rec.get_state()[2]
-        r_rec = quiet(g, t, seed=rec) if 0 <= s < 2 ** 32 else None
+        r_rec = outcome(g, t, seed=rec) if 0 <= s < 2 ** 32 else None
         drew = (rec.get_state()[1].tobytes(), rec.get_state()[2]) != st0 or bool(rec.log)
     except Timeout:
-        return 'timeout'
-    except Exception as e:
-        return '%s: %s' % (type(e).__name__, str(e)[:80])
+        return 'timeout', None
     ctx.case(case, nontrivial=drew or r_rec is None)
     ctx.count('drew' if drew else 'no-draw')
     try:
         # (a)+(c): same int seed under two different prior histories of the global generators
-        set_world(2); w = world(); r1 = quiet(g, t, seed=s)
+        set_world(2); w = world(); r1 = outcome(g, t, seed=s)
         ctx.check(world() == w, name + ':global_untouched', 'seeded call (int seed) changed np.random / random global state', case)
-        set_world(3); w = world(); r2 = quiet(g, t, seed=s)
+        set_world(3); w = world(); r2 = outcome(g, t, seed=s)
         ctx.check(world() == w, name + ':global_untouched', 'seeded call (int seed) changed np.random / random global state', case)
         ctx.check(r1 == r2, name + ':same_seed_same_result', 'two calls with equal arguments and seed differ (prior global history differed)', case)
         if r_rec is not None:
             # (b)+(c): RandomState(seed) == int seed
-            set_world(4); w = world(); r3 = quiet(g, t, seed=np.random.RandomState(s))
+            set_world(4); w = world(); r3 = outcome(g, t, seed=np.random.RandomState(s))
             ctx.check(world() == w, name + ':global_untouched', 'seeded call (RandomState) changed np.random / random global state', case)
             ctx.check(r1 == r3, name + ':int_vs_randomstate', 'integer seed and RandomState(seed) give different results', case)
             ctx.check(r_rec == r3, name + ':int_vs_randomstate', 'recording RandomState subclass and plain RandomState give different results', case)
         # (d): unseeded, after np.random.seed: function of the numpy global state only (Python's random differs between the runs)
-        np.random.seed(s % 2 ** 32); random.seed(1); pw = random.getstate(); r4 = quiet(g, t)
+        np.random.seed(s % 2 ** 32); random.seed(1); pw = random.getstate(); r4 = outcome(g, t)
         ctx.check(random.getstate() == pw, name + ':py_random_untouched', "unseeded call changed Python's random state", case)
-        np.random.seed(s % 2 ** 32); random.seed(2); r5 = quiet(g, t)
+        np.random.seed(s % 2 ** 32); random.seed(2); r5 = outcome(g, t)
         ctx.check(r4 == r5, name + ':unseeded_function_of_global', 'unseeded calls after np.random.seed(s) differ', case)
         # (e) static summary vs recorder
         if static_ok is not None:
             ctx.check(not drew or may_draw, name + ':summary_no_draw', 'static summary has no local draw but the recorder saw draws', case)
     except Timeout:
+        return 'timeout', None
+    if raised(r1):
+        ctx.count('outcome:raised:' + r1[1])
+        return 'raised ' + r1[1], r1
+    return 'ok', r1
+
+
+def seed_kinds(ctx, name, g, v, s, r_int, t):
+    """other kinds of seed for the same call: numpy integer scalars (== the int), a sequence (what RandomState accepts), the module
+    np.random itself (get_rng: the global generator), kinds get_rng cannot turn into a generator (the same exception every time)"""
+    case = {'function': name, 'variant': v, 'options': g.label, 'seed': s, 'args_kwargs': getattr(g, 'args', None)}
+    try:
+        for mk, lab in ((np.int64, 'np.int64'), (np.uint32, 'np.uint32')):
+            set_world(5); w = world(); r = outcome(g, t, seed=mk(s))
+            ctx.check(world() == w, name + ':global_untouched', 'seeded call (%s seed) changed np.random / random global state' % lab, case)
+            ctx.check(r == r_int, name + ':numpy_integer_seed', 'seed %s(%d) and seed %d give different results' % (lab, s, s), case)
+            ctx.count('seedkind:' + lab)
+        tup = (s, 11)
+        set_world(6); w = world(); ra = outcome(g, t, seed=tup)
+        ctx.check(world() == w, name + ':global_untouched', 'seeded call (tuple seed) changed np.random / random global state', case)
+        set_world(7); rb = outcome(g, t, seed=tup); rc = outcome(g, t, seed=np.random.RandomState(tup))
+        ctx.check(ra == rb, name + ':same_seed_same_result', 'two calls with equal arguments and tuple seed %r differ' % (tup,), case)
+        ctx.check(ra == rc, name + ':int_vs_randomstate', 'tuple seed %r and RandomState(%r) give different results' % (tup, tup), case)
+        ctx.count('seedkind:tuple')
+        np.random.seed(s % 2 ** 32); rm = outcome(g, t, seed=np.random)
+        np.random.seed(s % 2 ** 32); ru = outcome(g, t)
+        ctx.check(rm == ru, name + ':np_random_module_is_global', 'seed=np.random does not behave like the unseeded call', case)
+        ctx.count('seedkind:np.random')
+        for bad in ('abc', 1.5):
+            set_world(8); w = world(); r6 = outcome(g, t, seed=bad)
+            ctx.check(world() == w, name + ':global_untouched', 'call with seed %r changed np.random / random global state' % (bad,), case)
+            set_world(9); r7 = outcome(g, t, seed=bad)
+            ctx.check(r6 == r7, name + ':same_seed_same_result', 'two calls with seed %r differ' % (bad,), case)
+            ctx.count('seedkind:%s:%s' % (type(bad).__name__, r6[1] if raised(r6) else 'accepted'))
+    except Timeout:
         return 'timeout'
-    except Exception as e:
-        ctx.fail(name + ':raises_after_first_run', 'a later call raised although the first succeeded: %s %s' % (type(e).__name__, str(e)[:80]), case)
     return 'ok'
+
+
+class CrossProcess:
+    """the same (function, options, seed) in two FRESH interpreters with different PYTHONHASHSEED (and so different hash order of str
+    keys, different addresses) must give the digests the parent computed: clause "identical results for identical arguments and
+    seed" across processes"""
+    HASHSEEDS = ('1', '4242')
+
+    def __init__(self, jobs):
+        import subprocess, tempfile
+        self.jobs, self.procs = jobs, []
+        self.dir = tempfile.mkdtemp(prefix='c05xp_')
+        inp = os.path.join(self.dir, 'jobs.json')
+        json.dump(jobs, open(inp, 'w'))
+        for hs in self.HASHSEEDS:
+            out = os.path.join(self.dir, 'out_%s.json' % hs)
+            env = dict(os.environ, PYTHONHASHSEED=hs, VERIF_REPO=REPO)
+            p = subprocess.Popen([sys.executable, os.path.join(VERIF, 'harness', 'c05_inputs.py'), 'child'], stdin=open(inp), stdout=open(out, 'w'),
+                                 stderr=subprocess.PIPE, env=env)
+            self.procs.append((hs, p, out))
+
+    def collect(self, ctx, parent):
+        import shutil
+        res = {}
+        for hs, p, out in self.procs:
+            try:
+                _, err = p.communicate(timeout=600)
+                res[hs] = json.load(open(out))['digests']
+            except Exception as e:
+                ctx.errors.append('cross-process child (PYTHONHASHSEED=%s) failed: %r %s' % (hs, e, (locals().get('err') or b'')[-400:]))
+        shutil.rmtree(self.dir, ignore_errors=True)
+        n = 0
+        for name, v, spec, t in self.jobs:
+            key = '%s|%d|%s' % (name, v, json.dumps(spec))
+            ds = {hs: r.get(key) for hs, r in res.items()}
+            ds['parent'] = parent.get(key)
+            vals = {d for d in ds.values() if d is not None and d != 'timeout'}
+            if len(vals) > 1:
+                ctx.fail(name + ':cross_process_same_result', 'the same call (equal arguments and seed) gives different results in different interpreter '
+                         'processes (PYTHONHASHSEED %s / parent): %s' % ('/'.join(self.HASHSEEDS), ds), {'function': name, 'variant': v, 'seed': spec})
+            n += len(vals) >= 1 and len([d for d in ds.values() if d is not None and d != 'timeout']) >= 2
+        ctx.count('cross_process_compared', n)
+        ctx.extra['cross_process'] = {'jobs': len(self.jobs), 'compared': n, 'hashseeds': list(self.HASHSEEDS) + ['parent (%s)' % os.environ.get('PYTHONHASHSEED')]}
 
 
 def static_part(ctx):
@@ -239,10 +229,13 @@ def static_part(ctx):
     r, lines, progs = ctx.rng, [], []
     names, vars_ = ['f', 'g', 'h'], ['a', 'b']
     def rnd(d):
-        k = r.randint(0, 8 if d > 0 else 5)
-        e = lambda: r.choice(['ESeed', ('EVar', r.choice(vars_)), 'ENone', 'EOther'])
-        return [TE.SKIP, ('GetRng', r.choice(vars_), e()), ('DrawLocal', r.choice(vars_)), TE.NP, TE.PY, ('Call', r.choice(names + ['zz']), e())][k] if k < 6 else \
-            ('Loop', rnd(d - 1)) if k == 8 else (('Seq', 'Choice')[k - 6], rnd(d - 1), rnd(d - 1))
+        e = lambda: r.choice(['ESeed', ('EVar', r.choice(vars_)), 'ENone', 'EOther', ('EDrawn', r.choice(vars_)), 'EComputed'])
+        leaves = [lambda: TE.SKIP, lambda: ('GetRng', r.choice(vars_), e()), lambda: ('DrawLocal', r.choice(vars_)), lambda: TE.NP, lambda: TE.PY,
+                  lambda: TE.ND, lambda: ('Call', r.choice(names + ['zz']), e())]
+        k = r.randint(0, 9 if d > 0 else 6)
+        if k <= 6:
+            return leaves[k]()
+        return ('Loop', rnd(d - 1)) if k == 9 else (('Seq', 'Choice')[k - 7], rnd(d - 1), rnd(d - 1))
     for _ in range(ctx.scale(300, 3000)):
         p = {q: (r.choice(['Seeded', 'Pure']), rnd(3)) for q in names}
         progs.append(p); lines.append(TE.enc_program(p))
@@ -262,49 +255,78 @@ def run(ctx):
     import bct
     prog, full, rejected, res = static_part(ctx)
     P = public_seeded()
-    B = builders(bct, P)
-    not_ex, partly, exercised = {}, {}, []
+    B = builders(P)
+    not_ex, partly, exercised, outcomes = {}, {}, [], {}
     missing_static = [n for n, f in P.items() if qname(f) not in full]
     for n in [x for x in missing_static if x != 'get_rng']:      # get_rng is modelled by hand
         ctx.mismatch('translator-scope', 'public seeded function %s (%s) is not in the translated program' % (n, qname(P[n])), {'function': n})
     suspects = {n for n, f in P.items() if qname(f) in rejected or any(c in rejected for c in TE.closure({q: c for q, (k, c) in full.items()}, [qname(f)]))}
-    seeds_q = [7, 0, 2 ** 32 - 1]
+    seeds_q = [0, 7, 2 ** 32 - 1]
+    # cross-process re-run: every function x every option set x seed 7, + seed 0 / a tuple seed on the first option set
+    jobs = []
+    for name in sorted(B):
+        nc, tt = B[name][0], (10.0 if 'nbs' in name else 6.0)
+        jobs += [[name, v, 7, tt] for v in range(nc)] + [[name, 0, 0, tt], [name, 0, ['tuple', [7, 11]], tt], [name, 0, ['np.int64', 7], tt]]
+    xp = CrossProcess(jobs)
+    parent = {}
     for name in sorted(P):
         f, q = P[name], qname(P[name])
         if name not in B:
             not_ex[name] = 'no argument builder'
             continue
+        ncfg, at = B[name]
         hot = name in suspects
-        nv = ctx.scale(4, 8) + (4 if hot else 0)
-        seeds = (seeds_q + [2 ** 32 - 1, 12345] if ctx.thorough or hot else seeds_q)
+        nv = max(ctx.scale(4, 8), ncfg) + (4 if hot else 0)                 # every option set at least once
+        seeds = seeds_q + [12345] + ([2, 3, 5, 11] if hot else []) if ctx.thorough or hot else seeds_q
         static_ok = None if q not in full else (q in prog and q not in rejected)
         md = TE.may_draw({k: v for k, v in full.items()}, q)
-        n_ok, why_not = 0, []
+        tt = 10.0 if 'nbs' in name else 6.0
+        n_ok, why_not, groups = 0, [], {}
         for v in range(nv):
             try:
-                g = B[name](v)
+                g = at(v)
             except Exception as e:
                 why_not.append('builder: %r' % e)
-                break
+                continue
             extra = [-1] if (v == 0 and (ctx.thorough or hot or name in FALLBACK_FNS)) else []
             for s in seeds + extra:
-                why = exercise(ctx, name, f, g, v, s, static_ok, md, t=(10.0 if 'nbs' in name else 6.0))
+                why, r1 = exercise(ctx, name, g, v, s, static_ok, md, t=tt)
                 if why == 'ok':
                     n_ok += 1
-                else:
-                    why_not.append('variant %d seed %d: %s' % (v, s, why))
-                    break
+                else:                                                       # counted, and the other seeds / option sets still run
+                    why_not.append('variant %d (%s) seed %d: %s' % (v, g.label, s, why))
+                    outcomes[why.split()[0]] = outcomes.get(why.split()[0], 0) + 1
+                if r1 is None:
+                    continue
+                if v < ncfg and s in (0, 7):
+                    parent['%s|%d|%s' % (name, v, json.dumps(s))] = digest(r1)
+                if g.group is not None:       # option sets that must not matter (number of worker processes)
+                    k = (g.group, g.mv, s)
+                    if k in groups:
+                        ctx.check(groups[k][0] == r1, name + ':workers_independent', 'options %s and %s give different results for the same input and seed'
+                                  % (groups[k][1], g.label), {'function': name, 'variant': v, 'options': g.label, 'seed': s, 'args_kwargs': g.args})
+                        ctx.count('option-pairs compared')
+                    groups.setdefault(k, (r1, g.label))
+                if v < min(ncfg, ctx.scale(2, 4)) and s == 7:
+                    if seed_kinds(ctx, name, g, v, s, r1, tt) != 'ok':
+                        why_not.append('variant %d (%s): timeout in the seed-kind clauses' % (v, g.label))
+                    elif v == 0:
+                        for spec in (['tuple', [7, 11]], ['np.int64', 7]):
+                            parent['%s|%d|%s' % (name, 0, json.dumps(spec))] = digest(outcome(g, tt, seed=seed_of(spec)))
         if n_ok:
             exercised.append(name)
         if why_not:
-            (partly if n_ok else not_ex)[name] = why_not[0] + (' (+%d more)' % (len(why_not) - 1) if len(why_not) > 1 else '')
+            (partly if n_ok else not_ex)[name] = '%d of %d (option set, seed) pairs did not return normally; first: %s' % (len(why_not), len(why_not) + n_ok, why_not[0])
         ctx.count('fn:' + name, n_ok)
+        ctx.count('option_sets:' + name, ncfg)
+    xp.collect(ctx, parent)
     if ctx.thorough:       # independent re-check of the compiled property (and of everything it depends on) by coqchk
         rc, out = sh('timeout 900 coqchk -silent -o -R theories BCT BCT.Properties.C05', cwd=COQ)
         ctx.extra['coqchk'] = ' '.join(out.split())[-400:]
         if rc != 0 or 'Axioms: <none>' not in out:
             ctx.mismatch('coqchk', 'coqchk does not confirm an axiom-free Properties/C05.vo', {'rc': rc}, None, out[-500:])
-    ctx.extra.update({'seeded_public_functions': len(P), 'exercised': exercised, 'not_exercised': not_ex, 'partly_not_exercised': partly, 'suspects_searched_harder': sorted(suspects)})
+    ctx.extra.update({'seeded_public_functions': len(P), 'exercised': exercised, 'not_exercised': not_ex, 'partly_not_exercised': partly,
+                      'calls_that_did_not_return_normally': outcomes, 'suspects_searched_harder': sorted(suspects)})
 
 
 def replay(ctx, payload):
@@ -312,10 +334,19 @@ def replay(ctx, payload):
     print(json.dumps(payload, indent=1)[:3000])
     c = payload.get('case', {})
     P = public_seeded()
-    if payload.get('kind') == 'failing-input' and c.get('function') in P:
-        B = builders(bct, P)
+    if payload.get('kind') == 'failing-input' and c.get('function') in P and isinstance(c.get('seed'), int):
+        B = builders(P)
         static_part(ctx)
-        why = exercise(ctx, c['function'], P[c['function']], B[c['function']](c['variant']), c['variant'], c['seed'], None, True)
+        g = B[c['function']][1](c['variant'])
+        why, r1 = exercise(ctx, c['function'], g, c['variant'], c['seed'], None, True)
+        if r1 is not None:
+            seed_kinds(ctx, c['function'], g, c['variant'], c['seed'], r1, 10.0)
+            for v2 in range(B[c['function']][0]):       # option sets of the same group (workers)
+                g2 = B[c['function']][1](v2)
+                if g.group is not None and g2.group == g.group and g2.mv == g.mv and g2.label != g.label:
+                    ctx.check(outcome(g2, 10.0, seed=c['seed']) == r1, c['function'] + ':workers_independent', 'options differ', c)
+            xp = CrossProcess([[c['function'], c['variant'], c['seed'], 10.0]])
+            xp.collect(ctx, {'%s|%d|%s' % (c['function'], c['variant'], json.dumps(c['seed'])): digest(r1)})
         print('replay:', why, 'failures:', [(f['key'], f['what']) for f in ctx.oracle_fail], 'known:', list(ctx.known_hits))
         return 1 if ctx.oracle_fail else 0
     return 0
